@@ -512,8 +512,14 @@ class Gen:
 
 
 def eager_twin(prog):
-    """the same pipeline written eagerly (C12 `lazy_eq_eager`); None if there is no eager way to write it"""
+    """the same pipeline written eagerly (C12 `lazy_eq_eager`); None if there is no eager way to write it.
+    The twin has the eager source, the steps that were attached before the start, and then — line by line — everything the
+    client does after the start: meta['align'] = (i, j) says that the state after body line i of the lazy program is to be
+    compared with the state after body line j of the twin, i+1 with j+1, … (event by event, not only at the end)."""
     if not prog.src.lazy() or prog.start in (None, 'cancel'):
+        return None
+    si = next((i for i, l in enumerate(prog.body) if l.startswith('start ')), None)
+    if si is None:
         return None
     ovr = start_ovr(prog.start)
     src = prog.src
@@ -530,17 +536,95 @@ def eager_twin(prog):
     tw = Program()
     tw.cfg, tw.inner, tw.src, tw.steps, tw.kept = prog.cfg, prog.inner, tsrc, prog.steps, prog.kept
     kind = kind_of_src(tsrc)
-    body = ['src ' + tsrc.text()]
     for s in prog.steps:
         kind = kind_after(kind, s)
         if kind == 'B':
             return None
-        body.append('then ' + s.text())
-    body += ['flush', 'expect']
-    tw.body = body
-    tw.meta = {'final_expect': len(body) - 1, 'manual': prog.meta.get('manual', set())}
+    # before the start nothing of a lazy pipeline exists: `call` / `drain` / `set` of one of its own promises do nothing there
+    # (they would do something to the eager twin: left out).  The promises of the kept SharedFutures exist from the beginning.
+    keptp = {'set p%d' % k[0] for k in prog.kept.values()}
+    pre = [l for l in prog.body[1:si] if l.startswith('then ') or l in keptp]
+    tw.body = ['src ' + tsrc.text()] + pre + prog.body[si + 1:]
+    exps = [i for i, l in enumerate(tw.body) if l == 'expect']
+    tw.meta = {'final_expect': exps[-1] if exps else None, 'manual': prog.meta.get('manual', set()), 'align': (si, len(pre)),
+               'label': 'the same pipeline written eagerly'}
     tw.tags = {'twin'}
     return tw
+
+
+LAZY2EAGER = {'task_ready': 'ready', 'schedule': 'run', 'lazy_contract': 'async_contract'}
+
+
+def inner_eager_twin(prog):
+    """the same program with every INNER Task (a lazy pipeline returned by a callback, started by the step that returned it:
+    Core::Impl, IsRun branch entered through Here/Next) written eagerly: MakeTask -> MakeFuture, Schedule(e, f) -> Run(e, f),
+    LazyContract -> AsyncContract.  The client lines are the same, so the two programs are compared after EVERY line."""
+    out = []
+    changed = False
+    for l in prog.lines():
+        t = l.split()
+        if len(t) > 3 and t[0] == 'in' and t[2] == 'src' and t[3] in LAZY2EAGER:
+            t[3] = LAZY2EAGER[t[3]]
+            l = ' '.join(t)
+            changed = True
+        out.append(l)
+    if not changed:
+        return None
+    tw = reparse(out)
+    if tw.src is None or any(i.kind() == 'B' for i in tw.inner.values()):
+        return None   # e.g. Then(f) without executor after MakeFuture: no eager way to write it
+    tw.meta.update({'align': (0, 0), 'label': 'the same program with every inner Task written eagerly',
+                    'final_expect': prog.meta.get('final_expect')})
+    tw.tags.add('twin')
+    return tw
+
+
+def twins_of(prog):
+    if prog.src is None:
+        return []
+    return [t for t in (eager_twin(prog) if prog.src.lazy() else None, inner_eager_twin(prog)) if t is not None]
+
+
+def twin_compare(prog, o, tw, to):
+    """C12 `then like eager`, event by event: after every client line the callbacks invoked (and where), the Submits, the
+    finished jobs and the state of the handle are those of the eager twin.  Returns a message or None."""
+    i, j = tw.meta['align']
+    offa, offb = len(o['impl']) - len(prog.body), len(to['impl']) - len(tw.body)
+    if any(x == 'bad' for x in to['impl']):
+        return None
+    # where a callback ran is compared for the steps that are GIVEN to a user executor (Then(e, f), Then(f) inheriting e, heads):
+    # a callback on the inline executor runs wherever its input is completed / it is attached, which legitimately differs
+    # (lazy: everything is attached before anything runs)
+    placed = {sid for sid, own in py_spec(prog)[1].placed if own is not None and re.match(r'e\d+$', own)}
+    while i < len(prog.body) and j < len(tw.body):
+        a, b = parse_state(o['impl'][offa + i]), parse_state(to['impl'][offb + j])
+        if a is None or b is None:
+            return None   # a crash is reported by the monitors
+        a['ran'] = [x for x in a['ran'] if x[0] in placed]
+        b['ran'] = [x for x in b['ran'] if x[0] in placed]
+        diff = [f for f in ('inv', 'ran', 'jobs', 'sub', 'got', 'obs') if a.get(f) != b.get(f)]
+        if a['st'] != b['st'] and 'gone' not in (a['st'], b['st']):
+            diff.append('st')
+        if diff:
+            show = lambda d: ' '.join('%s=%s' % (f, ','.join(('%s@%s' % x if f == 'ran' else '%s%s' % x) if isinstance(x, tuple)
+                                                                else str(x) for x in d[f]) if isinstance(d.get(f), list)
+                                                 else d.get(f)) for f in diff)
+            return 'a lazy pipeline does not behave like %s: after line `%s` the lazy one has %s, the eager one %s' % (
+                tw.meta['label'], prog.body[i], show(a), show(b))
+        i += 1
+        j += 1
+    return None
+
+
+def twin_findings(prog, o, kind='plain'):
+    """twin comparison of ONE program (shrinking / replay): runs the twins"""
+    out = []
+    for tw in twins_of(prog):
+        to = run_batch([tw.lines()], kind, with_model=False)[0]
+        m = twin_compare(prog, o, tw, to)
+        if m:
+            out.append(('C12', m))
+    return out
 
 
 # ------------------------------------------------------------------------------------------------ running
@@ -799,6 +883,16 @@ def monitor(prog, outs, props):
         want = placed.get(sid)
         if want is not None and want.startswith('e') and want[1:].isdigit() and ctx != want:
             bad.append(('C05', 'step %d was told to run on %s but ran in context %s' % (sid, want, ctx)))
+    # C05 (c): a step whose executor refuses it sees StopError instead of its input: a callback that accepts errors (Result /
+    # error signature) is invoked when its job is Dropped.  The j-th Submit belongs to the j-th step given to a user executor.
+    uplaced = [(sid, int(own[1:])) for sid, own in pst.placed if own is not None and re.match(r'e\d+$', own)]
+    if [k for _, k in uplaced] == fin['sub']:
+        for j, how in fin['jobs']:
+            if how == 'd' and j < len(uplaced):
+                sid, k = uplaced[j]
+                if sid in steps and steps[sid].sig in ('R', 'E') and sid not in fin['inv']:
+                    bad.append(('C05', 'step %d was refused by e%d (job %d Dropped) but its callback, which accepts errors, was never '
+                                       'invoked: it must see StopError instead of its input' % (sid, k, j)))
     if spec is not None:
         # C02: final Result and invoked list = sequential reading
         if fin['st'].startswith('ready:'):
@@ -894,7 +988,10 @@ def _has_class(lines, prop, kind, key):
         o = run_batch([lines], kind)[0]
         if any(x == 'bad' for x in o['impl']):
             return False
-        return any(q == prop and msg_class(m) == key for q, m in monitor(prog, o, {prop}))
+        ms = monitor(prog, o, {prop})
+        if prop == 'C12' and key.startswith('a lazy pipeline does not behave'):
+            ms = ms + twin_findings(prog, o, kind)
+        return any(q == prop and msg_class(m) == key for q, m in ms)
     except Exception:
         return False
 
@@ -927,6 +1024,187 @@ def fails_with(props_wanted, kind='plain', need_model_diff=False):
             return correspondence(prog, o) is not None
         return any(p in props_wanted for p, _ in monitor(prog, o, props_wanted))
     return f
+
+
+# ------------------------------------------------------------------------------------------------ free jobs (C05)
+# Programs without a pipeline: `submit <ex> <id>` = yaclib::Submit(<ex>, f_<id>) (exe/submit.hpp), then call / drain / flush.
+# Lean model: Model/FreeJob.lean (theorems free_job_* of Props/C05.lean), same driver, same output format.
+def is_free(lines):
+    return any(l.startswith('submit ') for l in lines)
+
+
+def gen_free(rng):
+    lines = []
+    cfg = {}
+    for k in range(1, rng.choice([1, 2, 2, 3]) + 1):
+        kind = rng.choice(['queue', 'queue', 'manual', 'inline'])
+        lim = rng.choice([0, 1, 1, 2]) if rng.random() < 0.45 else None
+        cfg[k] = kind
+        lines.append('cfg e%d %s%s' % (k, kind, '' if lim is None else ' limit=%d' % lim))
+    nid = 0
+    for _ in range(rng.randrange(1, 9)):
+        x = rng.random()
+        if x < 0.62:
+            nid += 1
+            ex = rng.choice(['inl', 'stp', 'stp'] + ['e%d' % k for k in cfg] * 2)
+            lines.append('submit %s %d' % (ex, nid))
+        elif x < 0.85:
+            lines.append('%s e%d' % (rng.choice(['call', 'drain']), rng.choice(list(cfg))))
+        else:
+            lines.append('expect')
+    if nid == 0:
+        lines.append('submit %s 1' % rng.choice(['inl', 'stp', 'e1']))
+    return lines + ['flush', 'expect']
+
+
+def free_monitor(lines, impl):
+    """C05 for free jobs, on the implementation's output alone: every functor handed to Submit(e, f) is Called xor Dropped,
+    exactly once; Dropped iff its executor refused (stopped inline executor / user executor past its limit); Called inside the
+    executor; one UniqueJob per Submit, none left."""
+    bad = []
+    if any(o == 'bad' for o in impl):
+        return [('gen', 'program rejected by the harness: ' + ' | '.join(lines))]
+    if any(o in ('crash', 'missing') for o in impl):
+        i = next(i for i, o in enumerate(impl) if o in ('crash', 'missing'))
+        return [('C05', 'the implementation crashed at line %d `%s`' % (i, lines[i]))]
+    cfg = {}
+    prev = {'inv': [], 'ran': [], 'jobs': [], 'sub': [], 'lc': 0, 'lf': 0}
+    want_called = {}   # id -> context it must run in ('-' / 'e<k>'), for accepted jobs
+    never = {}         # id -> why it must not be invoked
+    queued = {}        # jid -> id, accepted by a queue executor, not yet seen finished
+    nsub = {}
+    last = None
+    for i, (l, o) in enumerate(zip(lines, impl)):
+        t = l.split()
+        if t[0] == 'cfg':
+            cfg[int(t[1][1:])] = (t[2], int(t[3].split('=')[1]) if len(t) > 3 else None)
+            continue
+        s = parse_state(o)
+        if s is None:
+            continue
+        last = s
+        if s['asserts']:
+            bad.append(('C05', 'library assertion fired at line %d `%s`: %s' % (i, l, ' '.join(s['asserts']))))
+        new_inv = s['inv'][len(prev['inv']):]
+        new_jobs = s['jobs'][len(prev['jobs']):]
+        new_sub = s['sub'][len(prev['sub']):]
+        if t[0] == 'submit':
+            ex, fid = t[1], int(t[2])
+            if s['al'] > 1:
+                bad.append(('C05', 'Submit(%s, f) allocated %d blocks (line %d)' % (ex, s['al'], i)))
+            if ex == 'inl':
+                want_called[fid] = '-'
+                if new_inv != [fid] or new_sub or new_jobs:
+                    bad.append(('C05', 'Submit(MakeInline(), f%d): the job was not called in place exactly once (line %d: %s)' % (fid, i, o)))
+            elif ex == 'stp':
+                never[fid] = 'the stopped inline executor (Alive() == false)'
+                if new_inv or new_sub or new_jobs:
+                    bad.append(('C05', 'job f%d was Called by the stopped inline executor MakeInline(StopTag{}) (Alive() == false), '
+                                       'expected Drop (line %d `%s`)' % (fid, i, l)))
+                elif (s['lc'], s['lf']) != (prev['lc'], prev['lf']):
+                    bad.append(('C05', 'job f%d handed to the stopped inline executor was neither called nor destroyed (line %d)' % (fid, i)))
+            else:
+                k = int(ex[1:])
+                kind, lim = cfg.get(k, ('queue', None))
+                rejected = lim is not None and nsub.get(k, 0) >= lim
+                nsub[k] = nsub.get(k, 0) + 1
+                jid = len(prev['sub'])
+                if new_sub != [k]:
+                    bad.append(('C05', 'Submit(e%d, f%d) reached the executor %d times (line %d)' % (k, fid, len(new_sub), i)))
+                elif rejected:
+                    never[fid] = 'e%d, which refused it' % k
+                    if new_jobs != [(jid, 'd')] or new_inv:
+                        bad.append(('C05', 'job f%d refused by e%d was not simply Dropped (line %d: %s)' % (fid, k, i, o)))
+                elif kind == 'inline':
+                    want_called[fid] = 'e%d' % k
+                    if new_jobs != [(jid, 'c')] or new_inv != [fid]:
+                        bad.append(('C05', 'job f%d accepted by the in-place executor e%d was not called exactly once (line %d: %s)' % (fid, k, i, o)))
+                else:
+                    want_called[fid] = 'e%d' % k
+                    queued[jid] = fid
+                    if new_jobs or new_inv:
+                        bad.append(('C05', 'job f%d queued on e%d ran before the executor was asked to (line %d: %s)' % (fid, k, i, o)))
+        else:
+            if s['al'] != 0:
+                bad.append(('C05', '%d allocation(s) on `%s` (line %d)' % (s['al'], l, i)))
+            for (jid, how) in new_jobs:
+                if how != 'c' or jid not in queued:
+                    bad.append(('C05', 'job %d finished as `%s` on line %d `%s` although %s' % (
+                        jid, how, i, l, 'it was accepted' if jid in queued else 'no such job is queued')))
+                queued.pop(jid, None)
+        prev = s
+    if last is None:
+        return bad
+    for fid, why in never.items():
+        if fid in last['inv']:
+            bad.append(('C05', 'job f%d was Called although it was handed to %s' % (fid, why)))
+    for fid in set(last['inv']):
+        if last['inv'].count(fid) > sum(1 for l in lines if l.split()[0] == 'submit' and int(l.split()[2]) == fid):
+            bad.append(('C05', 'job f%d was Called %d times' % (fid, last['inv'].count(fid))))
+    for fid, ctx in last['ran']:
+        if fid in want_called and want_called[fid] != ctx:
+            bad.append(('C05', 'job f%d handed to %s ran in context %s' % (fid, want_called[fid], ctx)))
+    if 'flush' in lines:
+        for fid in want_called:
+            if fid not in last['inv']:
+                bad.append(('C05', 'job f%d was accepted by its executor but never Called' % fid))
+        if last['lc'] != 0 or last['lf'] != 0:
+            bad.append(('C05', '%d UniqueJob(s) / %d functor(s) still alive after every job was finished' % (last['lc'], last['lf'])))
+    return bad
+
+
+def _free_has_class(lines, kind, key):
+    try:
+        if not is_free(lines):
+            return False
+        o = run_batch([lines], kind, with_model=False)[0]
+        return any(q == 'C05' and msg_class(m) == key for q, m in free_monitor(lines, o['impl']))
+    except Exception:
+        return False
+
+
+def free_check(res, tier):
+    """T3 for the free function Submit(e, f): random + corpus free-job programs, implementation vs monitor vs Lean fmech"""
+    rng = random.Random(C.seed() * 7919 + 5)
+    progs = [ls for _, ls in corpus_programs() if is_free(ls)]
+    ncorpus = len(progs)
+    progs += [gen_free(rng) for _ in range(400 if tier == 'quick' else 6000)]
+    drv_ok = os.path.exists(DRV)
+    fails, corr = [], []
+    kinds = ['plain'] + (['plain_asan'] if tier != 'quick' else [])
+    for kind in kinds:
+        rs = run_batch(progs, kind, with_model=drv_ok)
+        for idx, (ls, o) in enumerate(zip(progs, rs)):
+            ms = [(q, m) for q, m in free_monitor(ls, o['impl']) if q in ('C05', 'gen')]
+            if ms:
+                fails.append((idx, kind, ms[0][1]))
+            elif drv_ok and o['impl'] != o['model']:
+                corr.append((idx, kind))
+    reported = set()
+    for idx, kind, msg in fails:
+        key = msg_class(msg)
+        if key in reported or len(reported) >= 3:
+            continue
+        reported.add(key)
+        small = shrink(progs[idx], lambda ls, kind=kind, key=key: _free_has_class(ls, kind, key), budget=150)
+        res.violation('\n'.join(small) + '\nend', msg + '  [free jobs, minimised from a %d-line program, library build `%s`]' % (
+            len(progs[idx]), kind), name='C05_%s_free_%d.txt' % (tier, len(reported)))
+    if not fails and corr:
+        idx, kind = corr[0]
+        o = run_batch([progs[idx]], kind)[0]
+        i = next(i for i, (a, b) in enumerate(zip(o['impl'], o['model'])) if a != b)
+        res.violation('\n'.join(progs[idx]) + '\nend\n# line %d `%s`\n# impl : %s\n# model: %s' % (i, progs[idx][i], o['impl'][i], o['model'][i]),
+                      'correspondence broken: Lean fmech (free jobs) and the implementation differ (%d programs) but every job is '
+                      'still Called xor Dropped as the property says' % len(corr), no_input=True, name='C05_%s_free_correspondence.txt' % tier)
+    res.coverage['free_jobs'] = {
+        'programs': len(progs), 'corpus': ncorpus, 'distinct': len({tuple(p) for p in progs}),
+        'submits': sum(1 for p in progs for l in p if l.startswith('submit ')),
+        'on_stopped_inline': sum(1 for p in progs for l in p if l.startswith('submit stp')),
+        'refused_by_user_executor': sum(1 for p, o in zip(progs, rs) for x in (parse_state(o['impl'][-1]) or {'jobs': []})['jobs'] if x[1] == 'd'),
+        'streams_compared': ['yaclib (harness/pipe.cpp)'] + (['Lean fmech'] if drv_ok else []),
+        'rule': 'programs without a pipeline: 1-3 user executors (queue / ManualExecutor / in-place, optional limit), up to 8 '
+                'lines of submit <inl|stp|e_k> / call / drain / expect, then flush'}
+    return fails, corr
 
 
 # ------------------------------------------------------------------------------------------------ corpus / exhaustive
@@ -1093,9 +1371,8 @@ def check(res, prop, tier, n_quick, n_thorough, extra_programs=(), twins=False, 
             progs += exhaustive(2)
     if twins:
         for p in list(progs):
-            tw = eager_twin(p) if 'lazy' in p.tags else None
-            if tw is not None:
-                p.meta['twin'] = len(progs)
+            for tw in twins_of(p):
+                p.meta.setdefault('twins', []).append(len(progs))
                 progs.append(tw)
     kinds = ['plain'] + (['plain_asan'] if tier != 'quick' else [])
     drv_ok = os.path.exists(DRV)
@@ -1111,12 +1388,12 @@ def check(res, prop, tier, n_quick, n_thorough, extra_programs=(), twins=False, 
             results = rs
         for idx, (p, o) in enumerate(zip(sub, rs)):
             ms = [(q, m) for (q, m) in monitor(p, o, {prop}) if q in (prop, 'gen')]
-            if twins and 'twin' in p.meta and not ms and p.meta['twin'] < len(rs):
-                tw, to = progs[p.meta['twin']], rs[p.meta['twin']]
-                a = parse_state(o['impl'][len(o['impl']) - len(p.body) + p.meta['final_expect']])
-                b = parse_state(to['impl'][len(to['impl']) - len(tw.body) + tw.meta['final_expect']])
-                if a and b and (a['inv'] != b['inv'] or (a['st'].startswith('ready') and a['st'] != b['st'])):
-                    ms.append((prop, 'lazy pipeline ended with %s inv=%s, its eager twin with %s inv=%s' % (a['st'], a['inv'], b['st'], b['inv'])))
+            if twins and not ms:
+                for ti in p.meta.get('twins', ()):
+                    if ti < len(rs):
+                        m = twin_compare(p, o, progs[ti], rs[ti])
+                        if m:
+                            ms.append((prop, m))
             kms = [(q, m, next((k for k in open_known if re.search(k['match'], m)), None)) for (q, m) in ms]
             for (q, m, kf) in kms:
                 if kf is not None:
@@ -1188,6 +1465,18 @@ def replay(prop, path):
         print('VIOLATION reproduced (see the line named in the replay file)')
         return 1
     lines = [l.strip() for l in open(path) if l.strip() and not l.startswith('#') and l.strip() != 'end']
+    if is_free(lines):
+        o = run_batch([lines])[0]
+        for l, a, b in zip(lines, o['impl'], o['model']):
+            print('%-24s impl : %s' % (l, a))
+            if a != b:
+                print('%-24s model: %s   <-- differs' % ('', b))
+        ms = free_monitor(lines, o['impl'])
+        for q, m in ms:
+            print('%s: %s' % (q, m))
+        bad = bool(ms) or o['impl'] != o['model']
+        print('VIOLATION reproduced' if bad else 'no difference')
+        return 1 if bad else 0
     prog = reparse(lines)
     o = run_batch([lines])[0]
     for l, a, b, s in zip(lines, o['impl'], o['model'], o['spec']):
@@ -1197,6 +1486,8 @@ def replay(prop, path):
         if s.startswith('spec'):
             print('%-44s %s' % ('', s))
     ms = monitor(prog, o, {prop}) if prog.src is not None else []
+    if prop == 'C12' and prog.src is not None:
+        ms = ms + twin_findings(prog, o)
     for q, m in ms:
         print('%s: %s' % (q, m))
     bad = any(q == prop for q, _ in ms) or correspondence(prog, o) is not None
